@@ -331,37 +331,6 @@ Proof.
   - rewrite Hs. unfold sget, sset. rewrite sget_sset, str_eqb_refl. eauto.
 Qed.
 
-(* ---------- constructing a format directly from elements enforces the same rules ---------- *)
-Definition el_valid (e : element) : bool := match e with EArg a => arg_valid a | _ => true end.
-Lemma add_elements_wf : forall es f f', wf f -> forallb el_valid es = true -> add_elements f es = Ok f' -> wf f'.
-Proof.
-  induction es as [|e r IH]; intros f f' Hw Hv H; cbn in *.
-  - inversion H; subst; auto.
-  - apply andb_prop in Hv as [He Hr]. unfold bind in H.
-    destruct e; cbn in He.
-    + destruct (add_option f o) as [g|] eqn:E; [|discriminate]. apply (IH g f'); auto. eapply add_option_wf; eauto.
-    + destruct (add_command_option f c) as [g|] eqn:E; [|discriminate]. apply (IH g f'); auto. eapply add_copt_wf; eauto.
-    + destruct (add_argument f a) as [g|] eqn:E; [|discriminate]. apply (IH g f'); auto. eapply add_argument_wf; eauto.
-    + destruct (add_command_name f c) as [g|] eqn:E; [|discriminate]. apply (IH g f'); auto. eapply add_cname_wf; eauto.
-Qed.
-Lemma format_of_elements_wf_lemma es base f :
-  match base with Some b => wf b | None => True end -> forallb el_valid es = true ->
-  format_of_elements es base = Ok f -> wf f.
-Proof.
-  intros Hb Hv H. unfold format_of_elements, bind in H.
-  destruct (add_elements (empty_builder base) es) eqn:E; [|discriminate]. inversion H; subst.
-  rewrite idx_inv_build. 2:{ eapply add_elements_keeps_idx; [apply empty_builder_idx|eauto]. }
-  eapply add_elements_wf; eauto. destruct base; [apply empty_builder_wf_some; auto|apply empty_builder_wf_none].
-Qed.
-(* a format built by the API, used as the base of another builder, built on again *)
-Lemma stacked_wf_lemma ops0 ops1 :
-  forallb bop_valid ops0 = true -> forallb bop_valid ops1 = true ->
-  wf (build_format (brun (empty_builder (Some (build_format (brun (empty_builder None) ops0)))) ops1)).
-Proof.
-  intros. rewrite !reachable_build_id. apply reachable_wf_lemma; auto.
-  apply empty_builder_wf_some. apply reachable_wf_lemma; auto. apply empty_builder_wf_none.
-Qed.
-
 (* ---------- lookup by position: existence and lookup agree, and both read the listing ---------- *)
 From Coq Require Import Lia.
 Definition nth_arg (ars : list (str * arg)) (i : Z) : option arg :=
